@@ -14,12 +14,13 @@
    proved per run by TrigMat obligations on the traced matrices (k <= 6), compared numerically beyond.
 
    NOT PROVED (named honestly):
-   - ehrlich_enumerates for all n (here: every 1 <= k < n <= 10, by computation);
-   - unary_tree_ok, hw_encoder_ok, binary-encoder amplitudes (angles are acos/atan2/norms of the data;
-     covered by the data-level tests of the harness, tolerance 1e-10). *)
+   - ehrlich_enumerates for all n (here: every 1 <= k < n <= 12, by computation; the local half -- every step is one transposition -- is proved for all n: ehrlich_steps_are_transpositions);
+   - hw_encoder_ok for all n (ring level: proved in general under the decidable chain_ok condition, which is
+     checked for the real gate skeleton for n <= 10 only); binary-encoder amplitudes; that the real angle
+     formulas (acos/atan2/norms) satisfy the load equations (covered by the data-level tests, tolerance 1e-10). *)
 From Coq Require Import List Bool Arith Lia Ring ZArith Reals.
 From Coquelicot Require Import Complex.
-From QV Require Import Base.Mat Base.Cis C20.Model C20.Proofs C20.ProofsQFT C20.ProofsPS C20.ProofsQFTMat C20.QFTComplex C20.ProofsAssoc.
+From QV Require Import Base.Mat Base.Cis C20.Model C20.Proofs C20.ProofsQFT C20.ProofsPS C20.ProofsQFTMat C20.QFTComplex C20.ProofsAssoc C20.ProofsEhrlich C20.ProofsTree C20.ProofsHW.
 Import ListNotations.
 
 (* ---------------------------------------------------------------- comp_basis_encoder (all n, all bit strings) *)
@@ -158,6 +159,39 @@ Proof.
 Qed.
 Print Assumptions qft_ok_complex_matrix.
 
+(* with_swaps=False: the documented bit reversal -- output |y> carries the DFT entry of the integer whose
+   digits are y read backwards (rev_value n y = sum_q y_q 2^q); all n >= 1, product matrix of Base/Mat.v *)
+Theorem qft_ok_noswap :
+  forall (T : Type) (t0 t1 : T) (tadd tmul tsub : T -> T -> T) (topp : T -> T),
+  ring_theory t0 t1 tadd tmul tsub topp (@eq T) ->
+  forall (h : T) (e : nat -> T),
+  e 0 = t1 -> (forall a b, e (a + b) = tmul (e a) (e b)) ->
+  forall x : bits, let n := length x in
+  1 <= n -> e (2 ^ (n - 1)) = topp t1 ->
+  mmul (KT T t0 t1 tadd tmul)
+       (circ_mat (KT T t0 t1 tadd tmul) n (map (to_gapp T t0 t1 topp h e n) (qft n false)))
+       (col T (bvec T n (fun c => if beqb x c then t1 else t0)))
+  = col T (bvec T n (fun y => tmul (tpow T t1 tmul h n) (e (qphase n x 0 * rev_value n y)))).
+Proof. exact qft_circ_mat_column_noswap. Qed.
+Print Assumptions qft_ok_noswap.
+
+Theorem qft_ok_noswap_complex_matrix : forall x : bits, let n := length x in
+  1 <= n ->
+  mmul (KT C (RtoC 0) (RtoC 1) Cplus Cmult)
+       (circ_mat (KT C (RtoC 0) (RtoC 1) Cplus Cmult) n
+                 (map (to_gapp C (RtoC 0) (RtoC 1) Copp hC (ephase n) n) (qft n false)))
+       (col C (bvec C n (fun c => if beqb x c then RtoC 1 else RtoC 0)))
+  = col C (bvec C n (fun y => Cmult (tpow C (RtoC 1) Cmult hC n) (ephase n (qphase n x 0 * rev_value n y)))).
+Proof.
+  intros x n Hn.
+  apply (qft_circ_mat_column_noswap C (RtoC 0) (RtoC 1) Cplus Cmult Cminus Copp C_ring hC (ephase n)
+                                    (ephase_0 n) (ephase_add n) x Hn (ephase_half n Hn)).
+Qed.
+Print Assumptions qft_ok_noswap_complex_matrix.
+
+Example rev_value_example : rev_value 4 [true; false; true; true] = 13 /\ qphase 4 [true; false; true; true] 0 = 11.
+Proof. split; reflexivity. Qed.
+
 (* the matrices behind [to_gapp]: non-vacuity / readability *)
 Example to_gapp_H : to_gapp Z 0%Z 1%Z Z.opp 7%Z (fun _ => 1%Z) 3 (QH 1) = ([], [1], [[7; 7]; [7; -7]]%Z).
 Proof. reflexivity. Qed.
@@ -166,12 +200,22 @@ Theorem qft_cu1_phase : forall n k, k < n -> ephase n (2 ^ (n - 1 - k)) = cis (P
 Proof. exact ephase_cu1. Qed.
 Print Assumptions qft_cu1_phase.
 
-(* ---------------------------------------------------------------- Ehrlich walk (BOUNDED: n <= 10) *)
-(* for every 1 <= k < n <= 10 the walk started at 1^k 0^(n-k) has binom n k strings, without repetition,
+(* ---------------------------------------------------------------- Ehrlich walk: the LOCAL half for ALL n *)
+(* for every n and EVERY initial string: if _ehrlich_algorithm returns, every string has the length and the
+   weight of the first one, and each is obtained from its predecessor by exactly one transposition
+   (position out: 1 -> 0, position in: 0 -> 1), which is the reported move *)
+Theorem ehrlich_steps_are_transpositions : forall s0 strs moves,
+  ehrlich s0 = Some (strs, moves) ->
+  Forall (fun s => weight s = weight s0 /\ length s = length s0) strs /\ steps_ok strs moves.
+Proof. exact ehrlich_local. Qed.
+Print Assumptions ehrlich_steps_are_transpositions.
+
+(* ---------------------------------------------------------------- Ehrlich walk (BOUNDED: n <= 12) *)
+(* for every 1 <= k < n <= 12 the walk started at 1^k 0^(n-k) has binom n k strings, without repetition,
    exactly the strings of length n and weight k; consecutive strings differ in exactly two positions (one
    transposition); every reported move (out, in, controls) is the transposition between its two strings
    and its controls are the k-1 ones they share *)
-Theorem ehrlich_enumerates_bounded : forall n k, n <= 10 -> 1 <= k < n ->
+Theorem ehrlich_enumerates_bounded : forall n k, n <= 12 -> 1 <= k < n ->
   exists strs moves,
     ehrlich (initial_string n k) = Some (strs, moves) /\
     length strs = binom n k /\
@@ -184,6 +228,45 @@ Print Assumptions ehrlich_enumerates_bounded.
 (* the malformed input 1010 (ones not consecutive) is rejected: the real code raises IndexError *)
 Example ehrlich_malformed : ehrlich [true; false; true; false] = None.
 Proof. vm_compute. reflexivity. Qed.
+
+(* ---------------------------------------------------------------- hamming_weight_encoder, ring level *)
+(* GENERAL (all n, any strings/gates, any commutative ring): a chain of controlled RBS gates satisfying the
+   decidable condition [chain_ok] (gate j active on string j with in=1/out=0, maps it to string j+1, inactive on
+   all earlier strings, new string fresh) loads the diagonal spread  c0 r, s0 c1 r, s0 s1 c2 r, ...  on the
+   strings in order and leaves amplitude 0 on every other basis state *)
+Theorem hw_chain_ok_loads :
+  forall (R : Type) (r0 r1 : R) (radd rmul rsub : R -> R -> R) (ropp : R -> R),
+  ring_theory r0 r1 radd rmul rsub ropp (@eq R) ->
+  forall n gs cs bs earlier E A rc,
+  chain_ok n earlier bs gs = true -> length cs = length gs -> map fst E = earlier ->
+  (forall b, hd_error bs = Some b -> describes R r0 n A ((b, rc) :: E)) ->
+  describes R r0 n (run_hw R radd rmul rsub gs cs A) (rev (combine bs (spread R rmul cs rc)) ++ E).
+Proof. exact run_hw_spec. Qed.
+Print Assumptions hw_chain_ok_loads.
+
+(* BOUNDED (1 <= k < n <= 10, both optimize_controls settings): the real gate skeleton (Model.hw_gates, tied to
+   hamming_weight_encoder by the structural correspondence) satisfies chain_ok along the Ehrlich walk, hence
+   the amplitude of the j-th walk string is the j-th entry of the spread; with unary_diagonal_ok_ring
+   (c_j N_j = x_j, s_j N_j = N_{j+1}) that is  amplitude * ||x|| = datum.  Complex data (the RZ layers) and
+   the lexicographic re-ordering of the data are NOT in this theorem (data-level tests). *)
+Theorem hw_encoder_ok_bounded :
+  forall (R : Type) (r0 r1 : R) (radd rmul rsub : R -> R -> R) (ropp : R -> R),
+  ring_theory r0 r1 radd rmul rsub ropp (@eq R) ->
+  forall n k opt, n <= 10 -> 1 <= k < n ->
+  exists bs gs, hw_texts n k = Some bs /\ hw_cgates n k opt = Some gs /\
+    forall (cs : list (R * R)) (r : R), length cs = length gs ->
+    forall b0, hd_error bs = Some b0 ->
+    forall x, length x = n ->
+      run_hw R radd rmul rsub gs cs (fun y => if bits_eqb b0 y then r else r0) x
+      = amp_of_list R r0 (rev (combine bs (spread R rmul cs r))) x.
+Proof.
+  intros R r0 r1 radd rmul rsub ropp Rring n k opt Hn Hk.
+  apply (hw_encoder_chain R r0 r1 radd rmul rsub ropp Rring). now apply hw_ok_bounded.
+Qed.
+Print Assumptions hw_encoder_ok_bounded.
+
+Example hw_ok_example : hw_ok 5 2 true = true /\ hw_cgates 4 2 true = Some [mkCG 2 0 []; mkCG 0 1 []; mkCG 3 2 [1]; mkCG 1 0 [2]; mkCG 2 1 [0]].
+Proof. split; vm_compute; reflexivity. Qed.
 
 (* ---------------------------------------------------------------- RBS chains on unary amplitudes (all n, ring level) *)
 Section Unary.
@@ -204,19 +287,45 @@ Section Unary.
     map (fun a => rmul a N) (spread R rmul cs r) = map (fun x => rmul x r) xs.
   Proof. exact (spread_loads R r0 r1 radd rmul rsub ropp Rring). Qed.
 
-  (* tree loader, recursive form (the link "the breadth-first RBS gate list of unary_encoder computes
-     spread_tree" is NOT proved here; it is covered by the data-level tests): every leaf amplitude times
-     the root norm is its datum, zero blocks included *)
+  (* tree loader, BREADTH-FIRST GATE LIST (Model.tree_rows = _generate_rbs_pairs in data coordinates
+     p = n-1-qubit, tied to the real code by the structural correspondence): executing the RBS gates row by
+     row on the unit amplitude r at position 0 leaves the amplitudes Lf on the leaf positions and zero
+     elsewhere, and Lf * N0 = data * r whenever the angles satisfy the load equations level by level
+     (c N_parent = N_left, s N_parent = N_right, as r_array / phases of _generate_rbs_angles; zero blocks
+     included).  What stays tested: that acos(...) of the real code satisfies these equations. *)
+  Theorem unary_tree_bfs_ok_ring : forall fuel n (rows : list (list (R * R))) (N0 r : R) (data : list R),
+    rows_ok R 1 rows ->
+    chain_loads R rmul fuel (n / 2) rows [N0] data ->
+    let a := run_pair_rows R radd rmul rsub (tree_rows fuel n (n / 2) [0]) rows (fun p => if Nat.eqb p 0 then r else r0) in
+    let Lf := levels R rmul fuel (n / 2) rows [r] in
+    (forall p, a p = amp_at R r0 (leaves R fuel (n / 2) [0] rows) Lf p) /\
+    map (fun u => rmul u N0) Lf = map (fun x => rmul x r) data.
+  Proof. exact (tree_bfs_loads R r0 r1 radd rmul rsub ropp Rring). Qed.
+
+  (* tree loader, recursive form: every leaf amplitude times the root norm is its datum, zero blocks included *)
   Theorem unary_tree_ok_ring : forall (t : ltree R) N a,
     loads_tree R rmul t N ->
     map (fun u => rmul u N) (spread_tree R rmul t a) = map (fun x => rmul x a) (tree_data R t).
   Proof. exact (spread_tree_loads R r0 r1 radd rmul rsub ropp Rring). Qed.
 End Unary.
 Print Assumptions unary_tree_ok_ring.
+Print Assumptions unary_tree_bfs_ok_ring.
 Print Assumptions rbs_chain_rotations.
 Print Assumptions unary_diagonal_ok_ring.
 
 (* non-vacuity over Z: data (3, 4) scaled: N0 = 5, c0 N0 = 3, s0 N0 = 4 with (c0, s0) = (3, 4), N0 = 1 *)
+(* n = 8: three rows of gates, the leaves are the positions 0..7 in order; data (0,0,0,0,3,4,0,5) loads with
+   N0 = 1 over Z (c, s) = (0,1) at the root ... : a concrete instance of chain_loads with zero blocks *)
+Example tree_leaves_8 :
+  leaves Z 3 4 [0] [[(0, 1)]; [(1, 0); (1, 1)]; [(1, 0); (1, 0); (3, 4); (0, 5)]]%Z = [0; 1; 2; 3; 4; 5; 6; 7].
+Proof. reflexivity. Qed.
+Example tree_chain_loads_8 :
+  chain_loads Z Z.mul 3 4 [[(0, 1)]; [(1, 0); (1, 1)]; [(1, 0); (1, 0); (3, 4); (0, 5)]]%Z [1%Z] [0; 0; 0; 0; 3; 4; 0; 5]%Z.
+Proof.
+  simpl. exists [0; 1]%Z. split; [repeat split|]. exists [0; 0; 1; 1]%Z. split; [repeat split|].
+  exists [0; 0; 0; 0; 3; 4; 0; 5]%Z. split; [repeat split | reflexivity].
+Qed.
+
 (* data (0, 0, 3, 4): the left block is all zero; theta = 0 there (c = 1, s = 0) *)
 Example loads_tree_zero_block :
   loads_tree Z Z.mul (Node Z 0 1 (Node Z 1 0 (Leaf Z 0) (Leaf Z 0)) (Node Z 3 4 (Leaf Z 3) (Leaf Z 4)))%Z 1%Z.
